@@ -617,6 +617,6 @@ func (o *DHCPv6Option) decode(data []byte) error {
 	if len(data) < 4+int(o.Length) {
 		return fmt.Errorf("dhcpv6 option size < length %d", 4+o.Length)
 	}
-	o.Data = data[4 : 4+o.Length]
+	o.Data = data[4 : 4+int(o.Length)]
 	return nil
 }
